@@ -143,6 +143,8 @@ Definition d_sprog (s : sx) : option sprog :=
   | LL [SS "sub"; x; y] => x <- d_nat x ;; y <- d_nat y ;; ret (PSub x y)
   | LL [SS "subf"; x; y] => x <- d_nat x ;; y <- d_nat y ;; ret (PSub x y)      (* the same, under free arithmetics *)
   | LL [SS "arr"; x] => x <- d_nat x ;; ret (PArr x)
+  | LL [SS "normalize"; x; c] => x <- d_nat x ;; c <- d_q c ;; ret (PDiv x c)    (* x.normalize(inplace=True): division by the total,
+                                                                                      which the case carries (all values lie inside the bins) *)
   | LL [SS "badiadd"; x] => x <- d_nat x ;; ret (PFillN x [] false)    (* a refused in-place addition (incompatible operand):
                                                                           like an empty batch, it leaves the statistics alone *)
   | _ => None end.
